@@ -211,41 +211,64 @@ Proof.
 Qed.
 
 (* the repair ends on every tree, every list of include paths and every request *)
-Lemma load_config_fixed_returns fs incs p : Returns (load_config_fixed (S (S (List.length (cf_files fs)))) fs incs p).
+Lemma load_config_returns fs incs p : Returns (load_config (S (S (List.length (cf_files fs)))) fs incs p).
 Proof.
-  unfold load_config_fixed, chain_fixed. destruct (resolve_path fs incs p) as [rp|]; [|apply returns_err].
+  unfold load_config, chain_fixed. destruct (resolve_path fs incs p) as [rp|]; [|apply returns_err].
   pose proof (chain_r_fixed_start_returns _ _ (successors fs incs) (successors_ok fs incs) rp) as [NP NF].
   pose proof (successors_length fs incs) as L.
   set (r := chain_r_fixed (resolve_path fs incs) (file_content fs) (S (S (List.length (successors fs incs)))) [] rp) in *.
   rewrite (chain_r_fixed_mono _ _ _ [] rp r eq_refl NF) by lia. split; assumption.
 Qed.
 (* today's loader: a result at any fuel is the result at fuel |files| + 2 *)
-Lemma load_config_bound fs incs p fuel r :
-  load_config fuel fs incs p = r -> r <> OutOfFuel -> load_config (S (S (List.length (cf_files fs)))) fs incs p = r.
+Lemma load_config_unfixed_bound fs incs p fuel r :
+  load_config_unfixed fuel fs incs p = r -> r <> OutOfFuel -> load_config_unfixed (S (S (List.length (cf_files fs)))) fs incs p = r.
 Proof.
-  unfold load_config, chain. destruct (resolve_path fs incs p) as [rp|]; [|auto]. intros H N.
+  unfold load_config_unfixed, chain. destruct (resolve_path fs incs p) as [rp|]; [|auto]. intros H N.
   pose proof (chain_r_bound _ _ (successors fs incs) (successors_ok fs incs) fuel rp r H N) as B.
   apply (chain_r_mono _ _ _ rp r B N). pose proof (successors_length fs incs). lia.
 Qed.
-Lemma load_config_fixed_conservative fs incs p fuel r :
-  load_config fuel fs incs p = r -> r <> OutOfFuel -> load_config_fixed fuel fs incs p = r.
+Lemma load_config_conservative fs incs p fuel r :
+  load_config_unfixed fuel fs incs p = r -> r <> OutOfFuel -> load_config fuel fs incs p = r.
 Proof.
-  unfold load_config, load_config_fixed, chain, chain_fixed. destruct (resolve_path fs incs p) as [rp|]; [|auto].
+  unfold load_config_unfixed, load_config, chain, chain_fixed. destruct (resolve_path fs incs p) as [rp|]; [|auto].
   intros H N. apply chain_r_fixed_agree; [exact H|exact N|intros s []].
 Qed.
-Lemma load_config_fixed_ok fs incs p fuel l : load_config_fixed fuel fs incs p = Ok l -> load_config fuel fs incs p = Ok l.
+Lemma load_config_ok fs incs p fuel l : load_config fuel fs incs p = Ok l -> load_config_unfixed fuel fs incs p = Ok l.
 Proof.
-  unfold load_config, load_config_fixed, chain, chain_fixed. destruct (resolve_path fs incs p) as [rp|]; [|auto].
+  unfold load_config_unfixed, load_config, chain, chain_fixed. destruct (resolve_path fs incs p) as [rp|]; [|auto].
   apply chain_r_fixed_ok.
 Qed.
-(* a request from which a cycle of resolved paths is reached is loaded without end *)
-Lemma load_config_cycle fs incs p rp rq :
+(* today's loader: a result at any fuel is the result at fuel |files| + 2 *)
+Lemma load_config_bound fs incs p fuel r :
+  load_config fuel fs incs p = r -> r <> OutOfFuel -> load_config (S (S (List.length (cf_files fs)))) fs incs p = r.
+Proof.
+  intros H N. destruct (load_config_returns fs incs p) as [_ NF].
+  unfold load_config, chain_fixed in *. destruct (resolve_path fs incs p) as [rp|]; [|exact H].
+  destruct (Nat.le_ge_cases fuel (S (S (List.length (cf_files fs))))) as [L|L].
+  - apply (chain_r_fixed_mono _ _ fuel [] rp r H N _ L).
+  - rewrite <- H. symmetry. apply (chain_r_fixed_mono _ _ _ [] rp _ eq_refl NF _ L).
+Qed.
+(* a request from which a cycle of resolved paths is reached is refused: the loader returns, and what it
+   returns cannot be a configuration (a configuration would be one of the loader before the fix, which never returns) *)
+Lemma load_config_cycle_is_error fs incs p rp rq :
   resolve_path fs incs p = Some rp ->
   clos_refl_trans _ (rnext (resolve_path fs incs) (file_content fs)) rp rq ->
   clos_trans _ (rnext (resolve_path fs incs) (file_content fs)) rq rq ->
-  forall fuel, load_config fuel fs incs p = OutOfFuel.
+  load_config (S (S (List.length (cf_files fs)))) fs incs p = Err.
 Proof.
-  intros R S C fuel. unfold load_config, chain. rewrite R. eapply chain_r_reach_cycle_diverges; eauto.
+  intros R RT C. destruct (load_config_returns fs incs p) as [NP NF].
+  destruct (load_config (S (S (List.length (cf_files fs)))) fs incs p) as [l| | |] eqn:E; try reflexivity; try congruence.
+  exfalso. apply load_config_ok in E. unfold load_config_unfixed, chain in E. rewrite R in E.
+  rewrite (chain_r_reach_cycle_diverges _ _ rp rq RT C) in E. discriminate.
+Qed.
+(* a request from which a cycle of resolved paths is reached is loaded without end *)
+Lemma load_config_unfixed_cycle fs incs p rp rq :
+  resolve_path fs incs p = Some rp ->
+  clos_refl_trans _ (rnext (resolve_path fs incs) (file_content fs)) rp rq ->
+  clos_trans _ (rnext (resolve_path fs incs) (file_content fs)) rq rq ->
+  forall fuel, load_config_unfixed fuel fs incs p = OutOfFuel.
+Proof.
+  intros R S C fuel. unfold load_config_unfixed, chain. rewrite R. eapply chain_r_reach_cycle_diverges; eauto.
 Qed.
 
 (* ---- witnesses: one file reached through different spellings -------------------------------------- *)
@@ -262,32 +285,32 @@ Definition fs_two : cfs := mkCfs ["w"] w_dirs [(["w"; "a.yaml"], ("a", Some "./b
 Definition fs_abs : cfs := mkCfs ["w"] w_dirs [(["w"; "a.yaml"], ("a", Some "/w/b.yaml")); (["w"; "b.yaml"], ("b", Some "a.yaml"))].
 
 Ltac rnext_step m inc := exists m, inc; split; [vm_compute; reflexivity|split; [discriminate|vm_compute; reflexivity]].
-Lemma spelling_dot_diverges fuel : load_config fuel fs_dot [] "a.yaml" = OutOfFuel.
+Lemma spelling_dot_diverges fuel : load_config_unfixed fuel fs_dot [] "a.yaml" = OutOfFuel.
 Proof.
-  apply (load_config_cycle fs_dot [] "a.yaml" "a.yaml" "./a.yaml"); [vm_compute; reflexivity| |].
+  apply (load_config_unfixed_cycle fs_dot [] "a.yaml" "a.yaml" "./a.yaml"); [vm_compute; reflexivity| |].
   - apply rt_step. rnext_step "a" "./a.yaml".
   - apply t_step. rnext_step "a" "./a.yaml".
 Qed.
-Lemma spelling_updown_diverges fuel : load_config fuel fs_updown [] "a.yaml" = OutOfFuel.
+Lemma spelling_updown_diverges fuel : load_config_unfixed fuel fs_updown [] "a.yaml" = OutOfFuel.
 Proof.
-  apply (load_config_cycle fs_updown [] "a.yaml" "a.yaml" "sub/../a.yaml"); [vm_compute; reflexivity| |].
+  apply (load_config_unfixed_cycle fs_updown [] "a.yaml" "a.yaml" "sub/../a.yaml"); [vm_compute; reflexivity| |].
   - apply rt_step. rnext_step "a" "sub/../a.yaml".
   - apply t_step. rnext_step "a" "sub/../a.yaml".
 Qed.
-Lemma spelling_incpath_diverges fuel : load_config fuel fs_incpath ["inc"] "inc/a.yaml" = OutOfFuel.
+Lemma spelling_incpath_diverges fuel : load_config_unfixed fuel fs_incpath ["inc"] "inc/a.yaml" = OutOfFuel.
 Proof.
-  apply (load_config_cycle fs_incpath ["inc"] "inc/a.yaml" "inc/a.yaml" "inc/a.yaml"); [vm_compute; reflexivity|apply rt_refl|].
+  apply (load_config_unfixed_cycle fs_incpath ["inc"] "inc/a.yaml" "inc/a.yaml" "inc/a.yaml"); [vm_compute; reflexivity|apply rt_refl|].
   apply t_step. rnext_step "a" "a.yaml".
 Qed.
-Lemma spelling_two_diverges fuel : load_config fuel fs_two [] "a.yaml" = OutOfFuel.
+Lemma spelling_two_diverges fuel : load_config_unfixed fuel fs_two [] "a.yaml" = OutOfFuel.
 Proof.
-  apply (load_config_cycle fs_two [] "a.yaml" "a.yaml" "./b.yaml"); [vm_compute; reflexivity| |].
+  apply (load_config_unfixed_cycle fs_two [] "a.yaml" "a.yaml" "./b.yaml"); [vm_compute; reflexivity| |].
   - apply rt_step. rnext_step "a" "./b.yaml".
   - apply t_trans with "sub/../a.yaml"; apply t_step; [rnext_step "b" "sub/../a.yaml"|rnext_step "a" "./b.yaml"].
 Qed.
-Lemma spelling_abs_diverges fuel : load_config fuel fs_abs [] "a.yaml" = OutOfFuel.
+Lemma spelling_abs_diverges fuel : load_config_unfixed fuel fs_abs [] "a.yaml" = OutOfFuel.
 Proof.
-  apply (load_config_cycle fs_abs [] "a.yaml" "a.yaml" "a.yaml"); [vm_compute; reflexivity|apply rt_refl|].
+  apply (load_config_unfixed_cycle fs_abs [] "a.yaml" "a.yaml" "a.yaml"); [vm_compute; reflexivity|apply rt_refl|].
   apply t_trans with "/w/b.yaml"; apply t_step; [rnext_step "a" "/w/b.yaml"|rnext_step "b" "a.yaml"].
 Qed.
 
